@@ -502,10 +502,30 @@ func main() {
 			}
 			checkOne(a, x, pks[0], c.kind, c.sig, dk)
 		}
-		// library Sign outputs
+		// library Sign outputs. The returned signatures are HELD (not copied) while the same key
+		// object signs again: a signature is a value that belongs to the caller, it must not change
+		// when the key is used again, nor when the caller overwrites another returned signature.
+		type heldSig struct{ sig, snapshot []byte }
+		var held []heldSig
 		for j := 0; j < 5; j++ {
 			sig, err := sk.Sign(x.msg(), hs.mk())
 			a.counts["library_sign_calls"]++
+			if err == nil {
+				held = append(held, heldSig{sig, append([]byte{}, sig...)})
+			}
+			for hi, h := range held[:max(len(held)-1, 0)] {
+				if !bytes.Equal(h.sig, h.snapshot) {
+					run.Violation(fmt.Sprintf("sign:%s:returned-signature-changed-later", cs.name), fmt.Sprintf("the signature returned by Sign call #%d changed when the same key object signed again (call #%d)", hi+1, j+1),
+						mkReplay("libsign-held", cs, k, "", x.msg(), hs.name, x.digest, h.snapshot, ev.Hex(h.snapshot), ev.Hex(h.sig)))
+					held[hi].snapshot = append([]byte{}, h.sig...)
+				}
+			}
+			if j == 3 && len(held) > 0 {
+				for i := range held[0].sig {
+					held[0].sig[i] ^= 0x5a // the caller reuses the first returned buffer
+				}
+				held[0].snapshot = append([]byte{}, held[0].sig...)
+			}
 			if err != nil || len(sig) != 64 {
 				run.Violation(fmt.Sprintf("sign:%s:%s:error-or-length", cs.name, hs.name), fmt.Sprintf("Sign returned len %d err %v", len(sig), err),
 					mkReplay("libsign", cs, k, "", x.msg(), hs.name, x.digest, sig, "64-byte signature", fmt.Sprint(err)))
